@@ -509,22 +509,30 @@ func runConcDial(c *simkit.Choice, r *simkit.Rec) {
 	r.Sig(uint64(ndial) | uint64(boolByte(gm))<<4 | 10<<24)
 	s := simkit.NewSim(c, pol, 8000000)
 	// the servers behind the simulated dialer: one identity per host name
+	// identities are loaded before the simulation starts (the fixture cache parses
+	// keys on first use: inside a task that would put parser events into the trace of
+	// whichever run happens to be first in its process)
+	gmFirst, gmSecond := gmServerCerts("srv-sign", "srv-enc"), gmServerCerts("srv2-sign", "srv2-enc")
+	stdFirst, stdSecond := pki.GMStd("tlsrsa"), pki.GMStd("tlsrsa2")
 	// (the hook runs inside whichever task dials: its own state is atomic)
 	var nsrv atomic.Int64
 	serve := func(host string, raw *simkit.Conn) {
 		k := nsrv.Add(1)
-		cfg := &gmtls.Config{Rand: simkit.NewStream(ent + 500 + uint64(k)), Time: simTime(s, 0), SessionTicketsDisabled: true}
+		cfg := &gmtls.Config{Rand: simkit.NewStream(ent + 500 + uint64(k)), Time: simTime(s, 0), SessionTicketsDisabled: true, CipherSuites: []uint16{0xc02f, 0x009c}}
+		if gm {
+			cfg.CipherSuites = gmSuites
+		}
 		second := host == "server2.sim"
 		if gm {
 			cfg.GMSupport = gmtls.NewGMSupport()
-			cfg.Certificates = gmServerCerts("srv-sign", "srv-enc")
+			cfg.Certificates = gmFirst
 			if second {
-				cfg.Certificates = gmServerCerts("srv2-sign", "srv2-enc")
+				cfg.Certificates = gmSecond
 			}
 		} else {
-			cfg.Certificates = []gmtls.Certificate{pki.GMStd("tlsrsa")}
+			cfg.Certificates = []gmtls.Certificate{stdFirst}
 			if second {
-				cfg.Certificates = []gmtls.Certificate{pki.GMStd("tlsrsa2")}
+				cfg.Certificates = []gmtls.Certificate{stdSecond}
 			}
 		}
 		s.Spawn(fmt.Sprintf("srv%d", k), 1, func() {
@@ -547,12 +555,16 @@ func runConcDial(c *simkit.Choice, r *simkit.Rec) {
 	}
 	defer func() { simkit.DialHook = nil }()
 	mkCfg := func(seed uint64) *gmtls.Config {
+		// (explicit suite lists: the library's default list is built once per process,
+		// which would make the first run of a process differ from the later ones)
 		cc := &gmtls.Config{Rand: simkit.NewStream(seed), Time: simTime(s, 0)}
 		if gm {
 			cc.GMSupport = gmtls.NewGMSupport()
 			cc.RootCAs = pki.Pool("caA")
+			cc.CipherSuites = gmSuites
 		} else {
 			cc.RootCAs = pki.Pool("rsaCA")
+			cc.CipherSuites = []uint16{0xc02f, 0x009c}
 		}
 		return cc
 	}
